@@ -277,6 +277,14 @@ mod sx {
         "||gh.com/p^$csp=d4",
         "||r.com^$redirect=a",
         "||r.com/q^*$redirect-rule=b:5",
+        // a second tagged regex rule under another tag (history plans switch between the two)
+        "other*rule$tag=u",
+        // more of each: a switch t -> u -> t re-creates the t rules at the freed addresses of their
+        // predecessors in some other order (regexes are cached under the rule's address)
+        "tagged*two$tag=t",
+        "tagged*three$tag=t",
+        "other*two$tag=u",
+        "other*three$tag=u",
     ];
 
     #[derive(Clone, Copy, Debug, PartialEq)]
@@ -302,7 +310,28 @@ mod sx {
         // lookups and the removeparam pass of check_parameterised
         "https://r.com/x",
         "https://r.com/q/y?utm=1",
+        "https://x.com/other1rule",
+        "https://x.com/tagged1two",
+        "https://x.com/tagged1three",
+        "https://x.com/other1two",
+        "https://x.com/other1three",
     ];
+
+    /// Operations of a preamble: executed by the controlling thread (no scheduling points) on the
+    /// fresh engine of an execution, before the threads of the plan start.
+    #[derive(Clone, Debug, PartialEq)]
+    pub enum P {
+        Ask(Q),
+        Tags(&'static [&'static str]),
+        /// back to the default discard policy (compiled regexes stay cached): under the always-discard
+        /// policy of the base plans every use recompiles from the rule at hand, which hides whatever
+        /// a stale cache entry would do
+        KeepCompiled,
+    }
+    static PREAMBLE: Mutex<Vec<P>> = Mutex::new(Vec::new());
+    pub fn set_preamble(p: &[P]) {
+        *PREAMBLE.lock().unwrap() = p.to_vec();
+    }
 
     pub fn engine() -> Engine {
         let mut e = Engine::from_rules_parametrised(RULES, Default::default(), true, false);
@@ -312,6 +341,15 @@ mod sx {
         e.use_resources(res);
         // aggressive policy: every critical section runs the cleanup, discards and recompiles
         e.set_regex_discard_policy(RegexManagerDiscardPolicy { cleanup_interval: Duration::from_nanos(1), discard_unused_time: Duration::ZERO });
+        for op in PREAMBLE.lock().unwrap().clone() {
+            match op {
+                P::Ask(q) => {
+                    let _ = ask(&e, q);
+                }
+                P::Tags(t) => e.use_tags(t),
+                P::KeepCompiled => e.set_regex_discard_policy(Default::default()),
+            }
+        }
         e
     }
 
@@ -354,6 +392,49 @@ mod sx {
             ("2x2-csp", vec![vec![Csp, Csp], vec![CspGh, Csp]]),
             ("2x2-redirect", vec![vec![Check(9), Check(10)], vec![Check(10), Check(9)]]),
         ]
+    }
+
+    /// History plans: the engine is first used and re-tagged by one thread (compiled regexes of the
+    /// tagged rules are cached, the tagged rules are freed and re-created, possibly at the addresses
+    /// of their predecessors), then queried by two threads at once. Whatever per-engine state a tag
+    /// change leaves for "the next query" to settle must be settled for every thread's next query.
+    const TAGSETS: [&[&str]; 4] = [&[], &["t"], &["u"], &["t", "u"]];
+    pub fn preambles() -> Vec<(String, Vec<P>)> {
+        let warm: Vec<P> = [5usize, 11, 12, 13, 14, 15].iter().map(|&i| P::Ask(Q::Check(i))).collect();
+        let warm0: Vec<P> = std::iter::once(P::KeepCompiled).chain(warm.iter().cloned()).collect();
+        let nm = |t: &[&str]| format!("[{}]", t.join(","));
+        let mut v = vec![];
+        for a in TAGSETS {
+            let mut p = warm0.clone();
+            p.push(P::Tags(a));
+            v.push((format!("warm,tags{}", nm(a)), p));
+            for b in TAGSETS {
+                let mut p = warm0.clone();
+                p.push(P::Tags(a));
+                p.push(P::Tags(b));
+                v.push((format!("warm,tags{},tags{}", nm(a), nm(b)), p));
+                let mut p = warm0.clone();
+                p.push(P::Tags(a));
+                p.extend(warm.clone());
+                p.push(P::Tags(b));
+                v.push((format!("warm,tags{},warm,tags{}", nm(a), nm(b)), p));
+            }
+        }
+        v
+    }
+
+    /// Base plans (no preamble) followed by the history plans.
+    pub fn all_plans() -> Vec<(String, Vec<Vec<Q>>, Vec<P>)> {
+        use Q::*;
+        let mut v: Vec<(String, Vec<Vec<Q>>, Vec<P>)> = plans().into_iter().map(|(n, p)| (n.to_string(), p, vec![])).collect();
+        for (pn, pre) in preambles() {
+            v.push((format!("h:{}|2x1", pn), vec![vec![Check(11)], vec![Check(5)]], pre.clone()));
+            v.push((format!("h:{}|2x1b", pn), vec![vec![Check(12)], vec![Check(13)]], pre.clone()));
+            v.push((format!("h:{}|2x1c", pn), vec![vec![Check(14)], vec![Check(15)]], pre.clone()));
+            v.push((format!("h:{}|2x2", pn), vec![vec![Check(11), Check(5)], vec![Check(5), Check(11)]], pre.clone()));
+            v.push((format!("h:{}|2x3", pn), vec![vec![Check(12), Check(13), Check(5)], vec![Check(14), Check(15), Check(11)]], pre));
+        }
+        v
     }
 
     pub struct Outcome {
@@ -540,8 +621,9 @@ mod sx {
             libc::alarm(std::env::var("VERIF_C19_CHILD_LIMIT_S").ok().and_then(|s| s.parse().ok()).unwrap_or(3600));
         }
         install();
-        let plans = plans();
-        let (name, plan) = &plans[plan_idx];
+        let plans = all_plans();
+        let (name, plan, pre) = &plans[plan_idx];
+        set_preamble(pre);
         let expect = match sequential_expectation(plan) {
             Ok(e) => e,
             Err(what) => {
@@ -631,9 +713,10 @@ mod sx {
             return stress(8, 10_000).1;
         }
         install();
-        let plans = plans();
+        let plans = all_plans();
         let pi = case["plan_idx"].as_u64().unwrap_or(0) as usize;
-        let (_, plan) = &plans[pi.min(plans.len() - 1)];
+        let (_, plan, pre) = &plans[pi.min(plans.len() - 1)];
+        set_preamble(pre);
         let choices: Vec<usize> = case["schedule"].as_array().map(|a| a.iter().filter_map(|v| v.as_u64().map(|x| x as usize)).collect()).unwrap_or_default();
         let expect = match sequential_expectation(plan) {
             Ok(e) => e,
@@ -670,10 +753,18 @@ fn sync_main(tier: vh::Tier) -> i32 {
     let ctx = Ctx::new("C19", tier);
     let exe = std::env::current_exe().unwrap();
     // (a) schedules: one child process per (plan, bound); the scheduler callback is process-global
-    let plans = sx::plans();
+    let plans = sx::all_plans();
     let mut jobs: Vec<(usize, usize)> = vec![];
-    for (pi, (name, _)) in plans.iter().enumerate() {
-        let max_bound = match (tier, *name) {
+    for (pi, (name, _, _)) in plans.iter().enumerate() {
+        if name.starts_with("h:") {
+            // history plans: one exploration at the highest bound (it contains the lower ones);
+            // the 2x2 thread plans in the thorough tier only
+            if name.contains("|2x1") || tier == vh::Tier::Thorough {
+                jobs.push((pi, if tier == vh::Tier::Quick { 2 } else { 3 }));
+            }
+            continue;
+        }
+        let max_bound = match (tier, name.as_str()) {
             (vh::Tier::Quick, "3x2") => 1, // 3x2 with 2 preemptions is 10 660 schedules (~40 s): thorough only
             (vh::Tier::Quick, _) => 2,
             (vh::Tier::Thorough, "2x2") | (vh::Tier::Thorough, "2x2-mixed") | (vh::Tier::Thorough, "2x2-rewrite") | (vh::Tier::Thorough, "2x2-excepted") | (vh::Tier::Thorough, "2x2-cosmetic") | (vh::Tier::Thorough, "2x2-csp") | (vh::Tier::Thorough, "2x2-redirect") => 4,
@@ -683,25 +774,39 @@ fn sync_main(tier: vh::Tier) -> i32 {
             jobs.push((pi, b));
         }
     }
-    ctx.bound("plans", json!(plans.iter().map(|p| p.0).collect::<Vec<_>>()));
+    // longest explorations first
+    jobs.sort_by_key(|j| std::cmp::Reverse((j.1, plans[j.0].1.iter().map(|t| t.len()).sum::<usize>() * plans[j.0].1.len())));
+    ctx.bound("plans", json!(plans.iter().filter(|p| !p.0.starts_with("h:")).map(|p| p.0.clone()).collect::<Vec<_>>()));
+    ctx.bound("history_plans", json!(jobs.iter().filter(|j| plans[j.0].0.starts_with("h:")).count()));
+    ctx.bound("history_preambles", json!(sx::preambles().iter().map(|p| p.0.clone()).collect::<Vec<_>>()));
     ctx.bound("max_preemption_bound", json!(jobs.iter().map(|j| j.1).max()));
+    let next = std::sync::atomic::AtomicUsize::new(0);
     let results: Vec<(usize, usize, Result<Value, String>)> = std::thread::scope(|sc| {
-        let hs: Vec<_> = jobs
-            .iter()
-            .map(|&(pi, b)| {
+        let hs: Vec<_> = (0..16)
+            .map(|_| {
                 let exe = exe.clone();
+                let (jobs, next) = (&jobs, &next);
                 sc.spawn(move || {
-                    let out = std::process::Command::new(&exe).args(["explore", &pi.to_string(), &b.to_string()]).output();
-                    let r = match out {
-                        Ok(o) if o.status.success() => serde_json::from_slice::<Value>(o.stdout.split(|c| *c == b'\n').filter(|l| l.starts_with(b"{")).last().unwrap_or(b"{}")).map_err(|e| e.to_string()),
-                        Ok(o) => Err(format!("child exited with {:?}: {}", o.status.code(), String::from_utf8_lossy(&o.stderr).chars().take(400).collect::<String>())),
-                        Err(e) => Err(e.to_string()),
-                    };
-                    (pi, b, r)
+                    let mut mine = vec![];
+                    loop {
+                        let k = next.fetch_add(1, std::sync::atomic::Ordering::Relaxed);
+                        if k >= jobs.len() {
+                            break;
+                        }
+                        let (pi, b) = jobs[k];
+                        let out = std::process::Command::new(&exe).args(["explore", &pi.to_string(), &b.to_string()]).output();
+                        let r = match out {
+                            Ok(o) if o.status.success() => serde_json::from_slice::<Value>(o.stdout.split(|c| *c == b'\n').filter(|l| l.starts_with(b"{")).last().unwrap_or(b"{}")).map_err(|e| e.to_string()),
+                            Ok(o) => Err(format!("child exited with {:?}: {}", o.status.code(), String::from_utf8_lossy(&o.stderr).chars().take(400).collect::<String>())),
+                            Err(e) => Err(e.to_string()),
+                        };
+                        mine.push((pi, b, r));
+                    }
+                    mine
                 })
             })
             .collect();
-        hs.into_iter().map(|h| h.join().unwrap()).collect()
+        hs.into_iter().flat_map(|h| h.join().unwrap()).collect()
     });
     let mut l = Local::default();
     let mut per_bound = serde_json::Map::new();
@@ -719,7 +824,7 @@ fn sync_main(tier: vh::Tier) -> i32 {
                 l.states += v["distinct_traces"].as_u64().unwrap_or(0);
                 l.transitions += v["points"].as_u64().unwrap_or(0);
                 l.nontrivial += v["distinct_traces"].as_u64().unwrap_or(0);
-                l.hist(&format!("{}:explored", plans[pi].0));
+                l.hist(&if plans[pi].0.starts_with("h:") { format!("history{}:explored", &plans[pi].0[plans[pi].0.rfind('|').unwrap_or(0)..]) } else { format!("{}:explored", plans[pi].0) });
                 if v["divergences"].as_u64().unwrap_or(0) > 0 || v["default_schedule_replays_identically"] == json!(false) {
                     eprintln!("machinery: replay divergence in plan {} bound {}", plans[pi].0, b);
                     machinery_failure = true;
@@ -827,12 +932,15 @@ fn sync_main(tier: vh::Tier) -> i32 {
         }
     }
     if machinery_failure {
-        let _ = ctx.finish("model_checking", "see design", &[]);
-        return 3;
+        // a wrong answer observed on the real engine stays a wrong answer even if some other
+        // schedule of the run did not replay identically (when answers depend on where rules happen
+        // to be allocated, traces do too): violations take precedence, otherwise machinery failure
+        let code = ctx.finish("model_checking", "see design", &[]);
+        return if code == 1 { 1 } else { 3 };
     }
     ctx.finish(
         "model_checking",
-        "(a) every interleaving of the thread plans (2x2, 3x1, 3x2, 2x3, 2x2-mixed, 2x2-rewrite, 2x2-excepted, 2x2-cosmetic, 2x2-csp, 2x2-redirect: real OS threads on one shared real engine of the Sync build, regex-heavy rules, always-discard policy) with at most k preemptions, k = 0..bound, explored by stateless DFS; scheduling points at the real regex-manager lock (try_lock decides blocking) and inside the critical section; oracle per schedule: every answer equals the single-thread answer of a fresh engine, no panic, no deadlock, lock not poisoned; (b) one engine per list of C01's quick universe (+ cosmetic rules): all answers hashed by the single-thread build and recomputed by the thread-safe build; states = distinct traces + engines, transitions = scheduling points + queries; non-trivial = distinct traces",
+        "(a) every interleaving of the thread plans (2x2, 3x1, 3x2, 2x3, 2x2-mixed, 2x2-rewrite, 2x2-excepted, 2x2-cosmetic, 2x2-csp, 2x2-redirect: real OS threads on one shared real engine of the Sync build, regex-heavy rules, always-discard policy) with at most k preemptions, k = 0..bound, explored by stateless DFS; scheduling points at the real regex-manager lock (try_lock decides blocking) and inside the critical section; oracle per schedule: every answer equals the single-thread answer of a fresh engine, no panic, no deadlock, lock not poisoned; (a') history plans: 36 preambles run by one thread on the fresh engine (default discard policy, every tagged regex rule used once, then one or two tag switches over {[],[t],[u],[t,u]} with or without queries in between - the tagged rules are freed and re-created while their compiled regexes were cached under their addresses), each followed by 2x1 thread plans (quick) and also 2x2 / 2x3 plans (thorough) explored the same way at the highest bound; (b) one engine per list of C01's quick universe (+ cosmetic rules): all answers hashed by the single-thread build and recomputed by the thread-safe build; states = distinct traces + engines, transitions = scheduling points + queries; non-trivial = distinct traces",
         &[
             "no preemption between two scheduling points: sound if no shared mutable state is touched outside the lock (checked separately, non-exhaustively, by a free-running Miri pass in the thorough tier)",
             "weak-memory behaviours below the mutex are not modelled",
